@@ -389,6 +389,10 @@ func TestC13H_History(t *testing.T) {
 		ul, stop := watchUnlocks(n.Nodes[sim.Zone])
 		defer stop()
 		trunk := sim.NewActor(n)
+		if rapid.IntRange(0, 3).Draw(t, "lockupHeavy") == 0 {
+			trunk.StickyPct = 70 // most block rewards go to one contract-held lockup tranche
+			stats.Label(partH, "lockup_heavy")
+		}
 		// reward-only accounts: never send or receive transactions
 		ro := sim.QuaiKeys(10)[7:10]
 		rewardOnly := map[common.AddressBytes]bool{}
